@@ -20,7 +20,7 @@ module.exports = function (repo, loadPrelude) {
   const proxyTemplate = pm[1];
   if (!/%s\.%s\(\.\.\.\$args\)/.test(proxyTemplate)) throw new Error('unexpected proxyFunction shape: ' + proxyTemplate);
   const esrc = fs.readFileSync(path.join(repo, 'compiler', 'expressions.go'), 'utf8');
-  const rm = /fun\.Name == "recover" \{[\s\S]{0,400}?return fc\.formatExpr\("(function\(\) \{[^"]*\})"\)/.exec(esrc);
+  const rm = /fun\.Name == "recover" \{[\s\S]{0,1500}?return fc\.formatExpr\("(function\(\) \{[^"]*\})"\)/.exec(esrc);
   const deferRecoverCallable = rm ? rm[1] : 'function() { $recover(); }';
   //  - the body of runtime.Goexit (compiler/natives/src/runtime/runtime.go)
   const rsrc = fs.readFileSync(path.join(repo, 'compiler', 'natives', 'src', 'runtime', 'runtime.go'), 'utf8');
